@@ -205,7 +205,8 @@ def main():
 
     # ---- A2: an unreadable store file starts empty rather than crashing; definitions survive a restart of the engine
     bad = 0
-    for content in [b"", b"not json", b"{\"a\": ", b"\xff\xfe\x00garbage", b"[1, 2", b"\x00\x01\x02"]:
+    # (also: valid JSON that is not an object cannot be a store either)
+    for content in [b"", b"not json", b"{\"a\": ", b"\xff\xfe\x00garbage", b"[1, 2", b"\x00\x01\x02", b"[]", b"null", b"3", b"\"abc\"", b"[{\"a\": 1}]", b"true"]:
         path = os.path.join(tmpd, "bad_%d.json" % bad)
         bad += 1
         open(path, "wb").write(content)
@@ -213,6 +214,10 @@ def main():
             s = st.JSONStore(path)
             if len(s) != 0:
                 ck.violation("an unreadable store file did not start empty: %r -> %r" % (content, dict(s)), {"content": repr(content)})
+            # and it is usable as a mapping from then on
+            s["k"] = {"v": 1}
+            if dict(s.get("k")) != {"v": 1} or "k" not in s or len(s) != 1:
+                ck.violation("a store opened on an unreadable file does not behave as a mapping afterwards (content %r)" % (content,), {"content": repr(content)})
         except Exception as e:          # noqa
             ck.violation("opening an unreadable store file raised %s: %s (content %r)" % (type(e).__name__, e, content), {"content": repr(content), "error": str(e)})
     eng, disp, cfg = impl.make_engine(tmpd, store_file=os.path.join(tmpd, "restart.json"))
